@@ -11,9 +11,10 @@ try:
 except Exception as e: print("ERR",t[-300:]); sys.exit(4)'
 for d in ${@:-seeded/*/}; do
   n=$(basename "$d"); p=${n%-*}
+  extra=$(/venv/bin/python -c "import json,sys; print(json.load(open('seeded/crosscheck.json')).get(sys.argv[1], ''))" "$n")
   if git -C /repo apply --check "$PWD/seeded/$n/patch.diff" 2>/dev/null; then
-    /venv/bin/python tools/seeded_eval.py "$PWD/seeded/$n" "$p" "$n" --no-tests --head 2>&1 | /venv/bin/python -c "$show" && continue
+    /venv/bin/python tools/seeded_eval.py "$PWD/seeded/$n" "$p" "$n" --no-tests --head $extra 2>&1 | /venv/bin/python -c "$show" && continue
     echo "   $n: benign or not applicable on HEAD, re-evaluating on its recorded base"
   fi
-  /venv/bin/python tools/seeded_eval.py "$PWD/seeded/$n" "$p" "$n" --no-tests 2>&1 | /venv/bin/python -c "$show"
+  /venv/bin/python tools/seeded_eval.py "$PWD/seeded/$n" "$p" "$n" --no-tests $extra 2>&1 | /venv/bin/python -c "$show"
 done
